@@ -680,6 +680,21 @@ theorem reach_step (w : World) (op : Op) (hc : w.config = some cfg) (hop : Launc
     | auto => exact h
     | damage dm => exact h
 
+/-- … and so does every sequence of calls of a process. -/
+theorem reach_ops (ops : List Op) : ∀ (w : World), w.config = some cfg → (∀ op ∈ ops, LaunchOp op) →
+    (∀ op ∈ ops, ∀ o, op.offer = some o → o.number ∈ offers) → EReach env cfg offers d0 b w.disk →
+    EReach env cfg offers d0 b (ops.foldl (fun w op => (step env w op).1) w).disk := by
+  induction ops with
+  | nil => intro w _ _ _ h; exact h
+  | cons op rest ih =>
+    intro w hc hops ho h
+    simp only [List.foldl]
+    have hop := hops op List.mem_cons_self
+    have hc' : (step env w op).1.config = some cfg := by
+      rw [step_config, hc]; cases op <;> first | rfl | exact hop.elim
+    exact ih _ hc' (fun x hx => hops x (List.mem_cons_of_mem _ hx)) (fun x hx => ho x (List.mem_cons_of_mem _ hx))
+      (reach_step env cfg offers d0 b w op hc hop (ho op List.mem_cons_self) h)
+
 end
 
 end Updater
